@@ -1246,11 +1246,17 @@ func (f *FnEnc) callAssertsNamed(fr *Frame, st *State, R string, short string, o
 	if con == nil {
 		return
 	}
-	for _, ca := range con.CallAssert {
+	for cai, ca := range con.CallAssert {
 		// (a call site is named by the callee's short name, or - to tell
 		// os.Open from (*os.Root).Open - by its full name)
 		if (ca.Callee != short && (f.curCalleeFull == "" || ca.Callee != f.curCalleeFull)) || (ca.Ord != 0 && ca.Ord != ord) {
 			continue
+		}
+		if con == f.con {
+			if f.assertMatched == nil {
+				f.assertMatched = map[int]bool{}
+			}
+			f.assertMatched[cai] = true
 		}
 		se := f.specEnvFor(fr, st, R)
 		if fr == f.top {
